@@ -162,7 +162,14 @@ def check_property(a):
                          'changed_functions': regressed[id(o)]}
             path, confirmed = make_replay(prop, o, [u for u in units if u.name == un][0], repo, extra, by_unit.get(un))
             replay_paths.append(path)
-            suffix = '' if confirmed else ' no-failing-input-found'
+            suffix = ' no-failing-input-found'
+            if confirmed:
+                try:
+                    rj = json.load(open(path))
+                    suffix = (' failing-input=native-replay-of-the-counter-model' if (rj.get('native_replay') or {}).get('exit') == 1
+                              else ' failing-input=bounded-native-search')
+                except Exception:
+                    suffix = ''
             lines.append('VIOLATION property=%s replay=%s obligation=%s unit=%s%s' % (prop, path, o['name'], un, suffix))
     elif unknown and exit_code == EXIT_OK:
         exit_code = EXIT_UNDECIDED
@@ -199,6 +206,8 @@ def check_property(a):
     # evidence
     by_backend = {}
     for o in proved:
+        if o['unit'] in bounded_units:
+            continue
         by_backend[o['backend']] = by_backend.get(o['backend'], 0) + 1
     solver_s = round(sum(o['time'] for o in counted), 3)
     functions = []
